@@ -25,29 +25,20 @@ Proof.
   induction 1 as [|[k v] hs Hh Hhs IH]; intros t acc; cbn [sr_headers]; auto.
   destruct k as [k|]; auto. destruct v as [v|]; auto.
   destruct (has_crlf v); auto. destruct (has_crlf k); auto.
+  destruct (negb (is_token k)); auto.
   unfold not_cl in Hh. cbn [fst] in Hh. rewrite Hh.
   destruct (existsb (beqb (lower k)) hop_by_hop); auto.
 Qed.
 
-Lemma start_response_no_cl t status hs exc : Forall not_cl hs ->
+(* exc_info clears the recorded length together with the headers: stated for calls without it *)
+Lemma start_response_no_cl t status hs (exc : option exn) : exc = None -> Forall not_cl hs ->
   t_clen (fst (start_response lower t status hs exc)) = t_clen t.
 Proof.
-  intro H. unfold start_response.
+  intros -> H. unfold start_response.
   destruct (t_complete t && _); auto.
-  assert (G : forall t1, t_clen (fst (let t2 := set_complete true t1 in
-           match status with
-           | PStr s => if has_crlf s then (t2, Exn ValueError)
-                       else let t3 := set_status s t2 in
-                            match sr_headers lower t3 hs [] with
-                            | (t4, Ok hs0) => (set_rh (t_rh t4 ++ hs0) t4, @Ok unit tt)
-                            | (t4, Exn e0) => (t4, Exn e0)
-                            end
-           | PNonStr => (t2, Exn AssertionError)
-           end)) = t_clen t1).
-  { intro t1. cbn zeta. destruct status as [s|]; auto. destruct (has_crlf s); auto.
-    pose proof (sr_headers_no_cl hs H (set_status s (set_complete true t1)) []) as F.
-    destruct (sr_headers lower _ hs []) as [t4 [l|e]]; cbn [fst] in *; exact F. }
-  destruct exc as [e0|]; [destruct (t_wrote_header t)|]; auto. apply (G (set_rh [] t)).
+  cbn zeta. destruct status as [s|]; auto. destruct (has_crlf s); auto.
+  pose proof (sr_headers_no_cl hs H (set_status s (set_complete true t)) []) as F.
+  destruct (sr_headers lower _ hs []) as [t4 [l|e]]; cbn [fst] in *; auto.
 Qed.
 
 Lemma run_actions_single disc s a :
@@ -88,7 +79,7 @@ Proof.
   intros _. unfold ladder. rewrite Eraw. cbn [o_writes o_close o_next o_escaped fst snd].
   revert Eraw. unfold task_run, wsgi_execute, simple_app. cbn [a_call a_kind a_steps a_has_close a_close_exn].
   rewrite run_actions_single. cbn [run_action fst snd].
-  pose proof (start_response_no_cl t0 (PStr status) hs None Hcl) as Hclen.
+  pose proof (start_response_no_cl t0 (PStr status) hs None eq_refl Hcl) as Hclen.
   destruct (start_response lower t0 (PStr status) hs None) as [t1 [[]|e1]] eqn:Esr; cbn [fst snd];
     [|cbn; intro X; discriminate X].
   cbn [fst] in Hclen.
